@@ -303,7 +303,7 @@ def gates(m, tier):
         missed.append('string enumerator through luamin: %d' % mon.get('string_literals_aligned', 0))
     if mon.get('numerals_aligned', 0) < 2000:
         missed.append('numeral enumerator through luamin: %d' % mon.get('numerals_aligned', 0))
-    if f.get('table-method-with-block-then-line-scope', 0) < 100 or f.get('num:random', 0) < 100:
+    if f.get('table-method-with-block-then-line-scope', 0) < 30 or f.get('num:random', 0) < 100:
         missed.append('table methods with a block then a line-scoped statement: %d programs; random numerals: %d programs'
                       % (f.get('table-method-with-block-then-line-scope', 0), f.get('num:random', 0)))
     if mon.get('cli_luamin_runs', 0) < 20 or mon.get('cli_build_minify_runs', 0) < 5:
